@@ -129,3 +129,13 @@ def run(ck, F, tier):
     PA = panicfree.run_inventory(ck, F, [DB + 'deblock'], mech, scope=('deblock::',), floors={'sites': 80, 'functions': 12})
     panicfree.run_termination(ck, F, PA, 8)
     c17.rule_unsafe(ck, F)
+    # the crate's debug_assert!s panic in builds with debug assertions (the test profile): the same inventory over the MIR built with debug assertions on, in
+    # both tiers - the asserted strength range must be implied by the documented precondition 1..=12 (interval reading of `(lo..=hi).contains(&strength)`),
+    # the other assertions are reviewed sites
+    if not getattr(F, 'debug_assertions', False):
+        from .. import facts as _facts
+        from ..report import Scoped
+        FD = _facts.load(debug_assertions=True)
+        sd = Scoped(ck, 'dbg.')
+        mech_d = {'DB1': db1_horizontal_loop(sd, FD), 'DB2': db2_vertical_octets(sd, FD)}
+        panicfree.run_inventory(sd, FD, [DB + 'deblock'], mech_d, scope=('deblock::',), floors={'sites': 80, 'functions': 12})
